@@ -339,6 +339,100 @@ func installFS(m *Machine) {
 		hd.Closed = true
 		return nilErr()
 	}
+	truncate := func(r *Run, f *SimFile, n int) {
+		for len(f.Data) < n {
+			f.Data = append(f.Data, Num{W: 8})
+		}
+		f.Data = f.Data[:n:n]
+		if f.Durable > n {
+			f.Durable = n
+		}
+	}
+	I["(*os.File).Truncate"] = func(r *Run, fr *Frame, a []Value) Value {
+		hd := h(r, a[0])
+		if hd.Closed {
+			return r.fsErr("closed")
+		}
+		n := int(int64(r.concretize(a[1].(Num), 0, 1<<20)))
+		if n < 0 {
+			return r.newError("invalid argument")
+		}
+		r.FS.Ops++
+		r.crashPoint("truncate:"+filepath.Base(hd.Name), nil, nil)
+		truncate(r, hd.F, n)
+		return nilErr()
+	}
+	I["os.Truncate"] = func(r *Run, fr *Frame, a []Value) Value {
+		f, ok := r.FS.Files[filepath.Clean(cstr(a[0]))]
+		if !ok {
+			return r.fsErr("notexist")
+		}
+		n := int(int64(r.concretize(a[1].(Num), 0, 1<<20)))
+		if n < 0 {
+			return r.newError("invalid argument")
+		}
+		r.FS.Ops++
+		r.crashPoint("truncate:"+filepath.Base(cstr(a[0])), nil, nil)
+		truncate(r, f, n)
+		return nilErr()
+	}
+	I["(*os.File).Seek"] = func(r *Run, fr *Frame, a []Value) Value {
+		hd := h(r, a[0])
+		if hd.Closed {
+			return Tuple{Num{W: 64, Signed: true}, r.fsErr("closed")}
+		}
+		off := int(int64(r.concretize(a[1].(Num), 0, 1<<20)))
+		switch int(r.concretize(a[2].(Num), 0, 2)) {
+		case 0:
+		case 1:
+			off += hd.Pos
+		case 2:
+			off += len(hd.F.Data)
+		}
+		if off < 0 {
+			return Tuple{Num{W: 64, Signed: true}, r.newError("invalid argument")}
+		}
+		hd.Pos = off
+		return Tuple{Num{W: 64, Signed: true, C: uint64(off)}, nilErr()}
+	}
+	I["(*os.File).WriteAt"] = func(r *Run, fr *Frame, a []Value) Value {
+		hd := h(r, a[0])
+		if hd.Closed {
+			return Tuple{num(0), r.fsErr("closed")}
+		}
+		b := a[1].(Slice).S
+		off := int(int64(r.concretize(a[2].(Num), 0, 1<<20)))
+		if off < 0 {
+			return Tuple{num(0), r.newError("negative offset")}
+		}
+		r.FS.Ops++
+		r.crashPoint("writeat:"+filepath.Base(hd.Name), nil, nil)
+		for len(hd.F.Data) < off+len(b) {
+			hd.F.Data = append(hd.F.Data, Num{W: 8})
+		}
+		copy(hd.F.Data[off:], b)
+		if hd.F.Durable > off {
+			hd.F.Durable = off
+		}
+		return Tuple{num(len(b)), nilErr()}
+	}
+	I["os.Chmod"] = func(r *Run, fr *Frame, a []Value) Value { return nilErr() }
+	I["os.RemoveAll"] = func(r *Run, fr *Frame, a []Value) Value {
+		p := filepath.Clean(cstr(a[0]))
+		r.FS.Ops++
+		r.crashPoint("removeall:"+filepath.Base(p), nil, nil)
+		for n := range r.FS.Files {
+			if n == p || strings.HasPrefix(n, p+"/") {
+				delete(r.FS.Files, n)
+			}
+		}
+		for n := range r.FS.Dirs {
+			if n == p || strings.HasPrefix(n, p+"/") {
+				delete(r.FS.Dirs, n)
+			}
+		}
+		return nilErr()
+	}
 	I["(*os.File).Name"] = func(r *Run, fr *Frame, a []Value) Value { return Str(h(r, a[0]).Name) }
 	I["(*os.File).Stat"] = func(r *Run, fr *Frame, a []Value) Value {
 		hd := h(r, a[0])
